@@ -1,6 +1,7 @@
 package rules
 
 import (
+	"go/ast"
 	"go/token"
 	"go/types"
 	"regexp"
@@ -111,7 +112,33 @@ func libProg(c *Ctx, dir string) (*core.Module, *ir.Program, *ir.Normalizer) {
 	prog := ir.LowerPackage(m.Main())
 	n := ir.NewNormalizer()
 	n.KeepShared = true
+	inlineExpressionFuncs(prog, n)
 	return m, prog, n
+}
+
+// inlineExpressionFuncs: a library function whose whole body is `return <expression>` (IsEmpty, Len, a private
+// clone helper) is a spelling of that expression; calls of it inside the same package are read as the expression,
+// so that `if IsEmpty(s)` and `if len(s) == 0` summarise alike.  The function itself keeps its own specification.
+func inlineExpressionFuncs(prog *ir.Program, n *ir.Normalizer) {
+	for _, fn := range prog.Funcs {
+		if fn.Decl == nil || fn.Decl.Recv != nil || fn.Decl.Body == nil || len(fn.Decl.Body.List) != 1 || reachesItself(prog, fn) {
+			continue
+		}
+		rs, ok := fn.Decl.Body.List[0].(*ast.ReturnStmt)
+		if !ok || len(rs.Results) != 1 {
+			continue
+		}
+		hasLit := false
+		ast.Inspect(rs.Results[0], func(x ast.Node) bool {
+			if _, ok := x.(*ast.FuncLit); ok {
+				hasLit = true
+			}
+			return true
+		})
+		if !hasLit {
+			n.Inline[fn.Key] = fn
+		}
+	}
 }
 
 func checkTermSpecs(c *Ctx, rule, dir string, specs []termSpec) {
